@@ -793,6 +793,9 @@ func (w *c05World) exec(f []string) (string, []string, []string) {
 				ch = ca.PublicKey.Challenge
 			}
 			raw, err := base64.RawURLEncoding.DecodeString(strings.TrimRight(ch, "="))
+			if err != nil { // this webauthn version marshals the challenge as plain []byte (standard base64)
+				raw, err = base64.StdEncoding.DecodeString(ch)
+			}
 			if err != nil || len(raw) == 0 {
 				return "bad-challenge", nil, nil
 			}
